@@ -230,6 +230,50 @@ def second_compilation_case(ctx, preds, classify):
     ctx.cov["second_compilation_case"] = True
 
 
+PLAIN_LEFT_OPS = {"OSub": "-", "ODiv": "/", "OMod": "%", "OPow": "**", "OLShift": "<<", "ORShift": ">>"}
+
+
+def plain_left_operand_case(ctx, preds, classify):
+    """a plain Python number written on the LEFT of a non-commutative operator (100 - x): the library may reject it;
+    when it accepts, the MIR must be the image of Integer(100) - x, operands in written order"""
+    import targeted
+    progs, texts = [], []
+    for op, sym in PLAIN_LEFT_OPS.items():
+        for mode in ("Secret", "Public"):
+            for base in ("Int", "UInt"):
+                if op in ("OLShift", "ORShift") and base == "Int" and mode == "Secret":
+                    pass
+                t = targeted.S(mode, base)
+                lit_base = base
+                pr = targeted.prog([targeted.inp("x", "x", t), {"k": "lit", "x": "l", "b": lit_base, "v": 100},
+                                    {"k": "bin", "x": "r", "op": op, "a": "l", "b": "x"}], [("o", "P0", "r")], ["plain-left-operand", op])
+                text = surface.to_python(pr)
+                lit_line = [l for l in text.split("\n") if l.strip().startswith("l = ")][0]
+                text = text.replace(lit_line + "\n", "").replace(f"r = l {sym} x", f"r = 100 {sym} x")
+                assert f"r = 100 {sym} x" in text
+                pr["text"] = text
+                progs.append(pr)
+                texts.append(text)
+    results = progrun.run_impl([None] * len(texts), texts=texts)
+    acc = [i for i, r in enumerate(results) if "ok" in r]
+    nbad = 0
+    if acc:
+        exprs = list(preds.values())
+        outp, errors = progrun.eval_over_cases(ctx, "plain_left", IMPORTS, [progs[i] for i in acc], [results[i] for i in acc], exprs)
+        if errors:
+            raise RuntimeError("cases plain_left failed: " + errors[0][1])
+        for name, e in preds.items():
+            for j in outp[e]:
+                i = acc[j]
+                nbad += 1
+                key, what = classify(name, progs[i], results[i])
+                vlib.report_failure(ctx, key + ":plain-number-on-the-left",
+                                    what + " — for a plain Python number on the left of a non-commutative operator",
+                                    replay_payload(progs[i], results[i]))
+    ctx.note(f"validate: {len(texts)} programs with a plain number on the left of - / % ** << >>: {len(acc)} accepted by the implementation, {nbad} of them unfaithful")
+    ctx.cov["plain_left_operand_programs"] = len(texts)
+
+
 def after_failed_compilation_case(ctx, preds, classify):
     """a program whose COMPILATION raises (two different inputs under one name), then a valid program in the same process:
     the predicates are evaluated on the MIR of the valid one"""
@@ -279,7 +323,7 @@ def after_failed_compilation_case(ctx, preds, classify):
     ctx.cov["after_failed_compilation_case"] = True
 
 
-def generic_run(ctx, preds, classify, n_quick=300, n_thorough=6000, level="proof", second_compilation=False, after_failed=False):
+def generic_run(ctx, preds, classify, n_quick=300, n_thorough=6000, level="proof", second_compilation=False, after_failed=False, plain_left=False):
     """shared body of the program-level checks: extract, prove, validate preds on implementation MIRs, tie the model"""
     import targeted
     ok_x = vlib.step_extract(ctx)
@@ -295,6 +339,8 @@ def generic_run(ctx, preds, classify, n_quick=300, n_thorough=6000, level="proof
             vlib.report_failure(ctx, key, what, replay_payload(progs[i], results[i]))
     if second_compilation:
         second_compilation_case(ctx, preds, classify)
+    if plain_left:
+        plain_left_operand_case(ctx, preds, classify)
     if after_failed:
         after_failed_compilation_case(ctx, {k: v for k, v in preds.items() if "must" not in k}, classify)
     if ok_x:
